@@ -277,6 +277,16 @@ if PROP == "C16":
     a, b = stackscope.extract_outermost(co), stackscope.extract(co).frames[0]
     if (a.hide, a.hide_line) != (b.hide, b.hide_line) or a != b:
         leg.violation("outermost-hook-next-inner", f"flags differ {(a.hide, a.hide_line)} vs {(b.hide, b.hide_line)}")
+    # ... under every option combination: what the hook is shown as next_inner does not depend on whether contexts are wanted
+    # (added after seed C16-lazy-outermost-without-contexts)
+    for wc, rc in ((False, False), (False, True), (True, True), (True, False)):
+        key_ = ("outermost-hook-next-inner", wc, rc)
+        leg.case(key_, True)
+        a = stackscope.extract_outermost(co, with_contexts=wc, recurse_child_tasks=rc)
+        b = stackscope.extract(co, with_contexts=wc, recurse_child_tasks=rc).frames[0]
+        if (a.hide, a.hide_line) != (b.hide, b.hide_line) or a != b:
+            leg.violation(key_, f"extract_outermost(x, with_contexts={wc}, recurse_child_tasks={rc}) differs from extract(...).frames[0]: flags "
+                                f"{(a.hide, a.hide_line)} vs {(b.hide, b.hide_line)}")
     co.close()
     # (c) running coroutine: frames inward of it must not claim it as origin
     res = {}
